@@ -53,7 +53,23 @@ func planProjection(b band.Band) (M, []band.VerifChannel, error) {
 		})
 		get = append(get, M{"i": i, "code": code, "f": freqVal(ch.Frequency), "min": ch.MinDR, "max": ch.MaxDR})
 	}
-	return M{"extra": s.SupportsExtraChannels, "cfmin": s.CFListMinDR, "cfmax": s.CFListMaxDR, "ul": ul, "dl": dl, "all": all, "std": intsOrEmpty(b.GetStandardUplinkChannelIndices()), "custom": intsOrEmpty(b.GetCustomUplinkChannelIndices()),
+	rx1 := []interface{}{}
+	for _, i := range all {
+		ii := i
+		var f uint32
+		idx := codeInt(func() (int, error) { return b.GetRX1ChannelIndexForUplinkChannelIndex(ii) })
+		fc := -1
+		if ii < len(s.UplinkChannels) {
+			uf := s.UplinkChannels[ii].Channel.Frequency
+			fc = codeErr(func() error {
+				var err error
+				f, err = b.GetRX1FrequencyForUplinkFrequency(uf)
+				return err
+			})
+		}
+		rx1 = append(rx1, M{"i": i, "idx": idx, "fcode": fc, "f": freqVal(f)})
+	}
+	return M{"rx1": rx1, "extra": s.SupportsExtraChannels, "cfmin": s.CFListMinDR, "cfmax": s.CFListMaxDR, "ul": ul, "dl": dl, "all": all, "std": intsOrEmpty(b.GetStandardUplinkChannelIndices()), "custom": intsOrEmpty(b.GetCustomUplinkChannelIndices()),
 		"enabled": intsOrEmpty(b.GetEnabledUplinkChannelIndices()), "disabled": intsOrEmpty(b.GetDisabledUplinkChannelIndices()), "get": get,
 		"endrs": intsOrEmpty(b.GetEnabledUplinkDataRates()), "defdrs": defdrs}, s.UplinkChannels, nil
 }
@@ -300,7 +316,7 @@ func planEvent(b band.Band, dev []int) (M, error) {
 
 func (c *ctx) devSet(n int, enabled []int, extra bool) []int {
 	in := make([]bool, n)
-	switch c.rnd.Intn(8) {
+	switch c.rnd.Intn(9) {
 	case 0: // exactly the network's enabled channels
 		for _, i := range enabled {
 			in[i] = true
@@ -317,6 +333,20 @@ func (c *ctx) devSet(n int, enabled []int, extra bool) []int {
 		}
 		if n == 72 && sb < 8 {
 			in[64+sb] = true
+		}
+	case 7: // a sub-band plus an arbitrary choice among the channels from 64 on (500 kHz channels / upper blocks)
+		if n > 64 {
+			sb := c.rnd.Intn(8)
+			for i := sb * 8; i < sb*8+8; i++ {
+				in[i] = true
+			}
+			for i := 64; i < n && i < 80; i++ {
+				in[i] = c.rnd.Intn(2) == 0
+			}
+		} else {
+			for i := range in {
+				in[i] = c.rnd.Intn(2) == 0
+			}
 		}
 	case 4: // network set with a few differences
 		for _, i := range enabled {
@@ -404,6 +434,28 @@ func (c *ctx) planCase(name band.Name, nsets int, exhaustive bool) error {
 			}
 			_, chans, _ = planProjection(b)
 		}
+	}
+	if !exhaustive && len(chans) > 16 && c.rnd.Intn(2) == 0 {
+		// the usual deployment of a 72- / 96-channel plan: the network uses one or two 8-channel sub-bands (and, with 72
+		// channels, some of the 500 kHz channels 64..71); everything else is disabled
+		keep := map[int]bool{}
+		for k := 0; k < 1+c.rnd.Intn(2); k++ {
+			sb := c.rnd.Intn(len(chans) / 8)
+			for i := sb * 8; i < sb*8+8; i++ {
+				keep[i] = true
+			}
+		}
+		if len(chans) == 72 {
+			for i := 64; i < 72; i++ {
+				keep[i] = c.rnd.Intn(3) == 0
+			}
+		}
+		for i := range chans {
+			if !keep[i] {
+				b.DisableUplinkChannelIndex(i)
+			}
+		}
+		_, chans, _ = planProjection(b)
 	}
 	for i := 0; i < c.rnd.Intn(14); i++ {
 		c.applyRandomOp(b, len(chans), chans, maxChans)
